@@ -112,15 +112,43 @@ pub fn on_carrier<T: Send + 'static>(
 pub enum Store {
     Sim(Arc<SimFs>),
     Mem(Resources),
+    /// a scratch directory on the real file system, reached through the real
+    /// `Resources::from_file_system()` (the process must stand in it: `enter`)
+    Real(crate::tierb::Scratch),
+}
+
+/// The working directory is process-wide: executions over the real file system through the
+/// library take turns.
+pub static CWD_LOCK: std::sync::Mutex<()> = std::sync::Mutex::new(());
+static HOME: std::sync::Mutex<Option<std::path::PathBuf>> = std::sync::Mutex::new(None);
+
+/// Back to the scratch directory of the history that holds `CWD_LOCK` (after a reference
+/// run entered its own).
+pub fn go_home() {
+    if let Some(home) = HOME.lock().unwrap_or_else(|e| e.into_inner()).as_ref() {
+        let _ = std::env::set_current_dir(home);
+    }
+}
+
+pub fn set_home(home: Option<std::path::PathBuf>) {
+    *HOME.lock().unwrap_or_else(|e| e.into_inner()) = home;
+    if HOME.lock().unwrap_or_else(|e| e.into_inner()).is_none() {
+        let _ = std::env::set_current_dir("/");
+    }
 }
 
 impl Store {
     pub fn new(backend: Backend, walk_seed: u64, entries: &[FsEntry]) -> Store {
         match backend {
-            Backend::SimFs | Backend::RealFs | Backend::RealLib => {
+            Backend::SimFs | Backend::RealFs => {
                 let fs = SimFs::new(walk_seed);
                 crate::model::populate(&fs, entries);
                 Store::Sim(Arc::new(fs))
+            }
+            Backend::RealLib => {
+                let scratch = crate::tierb::Scratch::new().expect("scratch directory");
+                crate::tierb::materialize(&scratch.root, entries, walk_seed).expect("materialize");
+                Store::Real(scratch)
             }
             Backend::Memory => {
                 let resources = Resources::from_memory();
@@ -138,13 +166,62 @@ impl Store {
         match self {
             Store::Sim(fs) => Resources::from_verif_file_system(fs.clone()),
             Store::Mem(resources) => resources.clone(),
+            Store::Real(_) => Resources::from_file_system(),
+        }
+    }
+
+    /// Make this store the one relative paths resolve in (real file system only).
+    pub fn enter(&self) {
+        if let Store::Real(scratch) = self {
+            let _ = std::env::set_current_dir(&scratch.root);
+        }
+    }
+
+    pub fn real_root(&self) -> Option<std::path::PathBuf> {
+        match self {
+            Store::Real(scratch) => Some(scratch.root.clone()),
+            _ => None,
         }
     }
 
     pub fn sim(&self) -> Option<&Arc<SimFs>> {
         match self {
             Store::Sim(fs) => Some(fs),
-            Store::Mem(_) => None,
+            Store::Mem(_) | Store::Real(_) => None,
+        }
+    }
+
+    pub fn user_mkdir(&self, path: &str) {
+        match self {
+            Store::Sim(fs) => fs.user_mkdir(path),
+            Store::Mem(_) => {}
+            Store::Real(scratch) => {
+                let _ = std::fs::create_dir_all(scratch.root.join(path));
+            }
+        }
+    }
+
+    pub fn user_rename(&self, from: &str, to: &str) {
+        match self {
+            Store::Sim(fs) => {
+                fs.user_rename(from, to);
+            }
+            Store::Mem(_) => {
+                if let Some(bytes) = self.user_read(from) {
+                    self.user_remove(from);
+                    self.user_write(to, &bytes);
+                }
+            }
+            Store::Real(scratch) => {
+                let target = scratch.root.join(to);
+                if let Some(parent) = target.parent() {
+                    let _ = std::fs::create_dir_all(parent);
+                }
+                if scratch.root.join(from).exists() {
+                    let _ = std::fs::remove_dir_all(&target).or_else(|_| std::fs::remove_file(&target));
+                }
+                let _ = std::fs::rename(scratch.root.join(from), target);
+            }
         }
     }
 
@@ -169,11 +246,19 @@ impl Store {
                 }
                 out
             }
+            Store::Real(scratch) => crate::tierb::snapshot(&scratch.root),
         }
     }
 
     pub fn user_write(&self, path: &str, bytes: &[u8]) {
         match self {
+            Store::Real(scratch) => {
+                let target = scratch.root.join(path);
+                if let Some(parent) = target.parent() {
+                    let _ = std::fs::create_dir_all(parent);
+                }
+                let _ = std::fs::write(target, bytes);
+            }
             Store::Sim(fs) => fs.user_write(path, bytes),
             Store::Mem(resources) => {
                 if let Ok(text) = std::str::from_utf8(bytes) {
@@ -185,6 +270,10 @@ impl Store {
 
     pub fn user_remove(&self, path: &str) {
         match self {
+            Store::Real(scratch) => {
+                let target = scratch.root.join(path);
+                let _ = std::fs::remove_dir_all(&target).or_else(|_| std::fs::remove_file(&target));
+            }
             Store::Sim(fs) => {
                 fs.user_remove(path);
             }
@@ -196,6 +285,7 @@ impl Store {
 
     pub fn user_read(&self, path: &str) -> Option<Vec<u8>> {
         match self {
+            Store::Real(scratch) => std::fs::read(scratch.root.join(path)).ok(),
             Store::Sim(fs) => fs.user_read(path),
             Store::Mem(resources) => resources.get(path).ok().map(String::into_bytes),
         }
